@@ -269,6 +269,8 @@ StepResult(s0, r) ==
                     \* the application rewinds the outgoing counter: numbers are used again, a retransmission gives what was LAST sent
                     \* under a number (Emit overwrites the store entry)
                     [] a.a = "resetout" -> [x0 EXCEPT !.outSeq = 0]
+                    \* the application unregisters handlers of its own: nothing changes for the session
+                    [] a.a = "rmhooks" -> x0
                     [] a.a = "send" -> AppSend(x0)
                     [] a.a = "llogout" -> LocalLogout(x0)
                     [] a.a = "stop" -> Stop(x0)
